@@ -68,6 +68,12 @@ impl<U: StunEndpointUser> StunEndpoint<U> {
         }
     }
 
+    /// Number of pending transactions (verification hook)
+    #[cfg(feature = "ezk-verif")]
+    pub fn verif_pending(&self) -> usize {
+        self.transactions.lock().len()
+    }
+
     pub fn user(&self) -> &U {
         &self.user
     }
